@@ -26,7 +26,8 @@
  *           T limits refreopen <maxref> <runs>        => ok                 after Hclose + Hopen: the same descriptors (maxref is recomputed)
  *  vgins    T limits vgins <nvelt> => <ok|fail> <nvelt'>
  *  fdefine  T limits fdefine <isize> <order> => ok|fail
- *  setfields T limits setfields <n> <sizes> => <ok|fail> <nfields>
+ *  setfields T limits setfields <n> <sizes> => <ok|fail> <nfields>     an entry of <sizes> is the order of a user-defined CHAR8 field, or
+ *                                                                      the NAME of a predefined field (PX .. NZ: 4 bytes, no VSfdefine)
  *  names    T limits name <api> <len> => <ok|fail> <stored> <reopened>
  *  sdrank   T limits sdrank <rank> => ok|fail
  *  ndds     T limits ndds <req> => <ndds|fail>          Hopen(DFACC_CREATE, (int16)req): descriptors per DD block
@@ -1077,16 +1078,23 @@ static void case_fdefine(int k)
 }
 
 static int sf_n; static int sf_sizes[600]; static const char *sf_path;
+/* sf_res[i] >= 0: entry i of the list is the PREDEFINED field RS[sf_res[i]] (rstab[] of vsfld.c: 4 bytes, never VSfdefine'd) */
+static int sf_res[600];
+static const char *RS[] = {"PX", "PY", "PZ", "IX", "IY", "IZ", "NX", "NY", "NZ"};
 static char *sf_list(void)
 {
     char *list = malloc((size_t)sf_n * 8 + 8); list[0] = 0; char *p = list;
-    for (int i = 0; i < sf_n; i++) p += sprintf(p, "%sG%d", i ? "," : "", i);
+    for (int i = 0; i < sf_n; i++) {
+        if (sf_res[i] >= 0) p += sprintf(p, "%s%s", i ? "," : "", RS[sf_res[i]]);
+        else p += sprintf(p, "%sG%d", i ? "," : "", i);
+    }
     return list;
 }
 static int32 sf_define(int32 fid)
 {
     int32 vs = VSattach(fid, -1, "w");
     for (int i = 0; i < sf_n; i++) {
+        if (sf_res[i] >= 0) continue;
         char nm[16]; snprintf(nm, sizeof nm, "G%d", i);
         if (VSfdefine(vs, nm, DFNT_CHAR8, sf_sizes[i]) == FAIL) return FAIL;
     }
@@ -1111,16 +1119,30 @@ static void case_setfields(int k)
     sf_n = HK_PICK(counts);
     int mode = (int)hk_range(0, 3);
     long long sum = 0;
+    /* field lists that MIX predefined and user-defined fields, up to the record-size limit: some entries (never the last one, which
+     * adjusts the total in mode 1) are predefined fields */
+    int mix = sf_n >= 2 && sf_n <= 100 && hk_chance(mode == 1 || mode == 3 ? 75 : 30), nres = 0, res_first = (int)hk_range(0, 8);
+    for (int i = 0; i < sf_n; i++) sf_res[i] = -1;
+    if (mix) {
+        int want = (int)hk_range(1, sf_n - 1 < 9 ? sf_n - 1 : 9);
+        for (int q = 0; q < want; q++) {
+            int pos = (int)hk_range(0, sf_n - 2);
+            if (sf_res[pos] < 0) sf_res[pos] = (res_first + nres++) % 9;
+        }
+        if (mode == 3 && hk_chance(70)) { sf_res[0] = -1; if (sf_res[1] < 0) sf_res[1] = (res_first + nres++) % 9; }  /* 65535 bytes, then a predefined field */
+    }
     for (int i = 0; i < sf_n; i++) {
         int s;
-        if (sf_n > 100) s = (int)hk_range(1, 3);
+        if (sf_res[i] >= 0) s = 4;
+        else if (sf_n > 100) s = (int)hk_range(1, 3);
         else if (mode == 0) s = (int)hk_range(1, 20);
         else if (mode == 1) s = (i == sf_n - 1) ? (int)(65535 - sum + hk_range(-1, 1)) : (int)hk_range(1, 2000);   /* total around 65535 */
         else if (mode == 2) s = (int)hk_range(20000, 40000);
-        else s = (i == 0) ? 65535 : 1;
+        else s = (i == 0) ? 65535 - (mix ? (int)hk_range(0, 5) : 0) : 1;
         if (s < 1) s = 1; if (s > 65535) s = 65535;
         sf_sizes[i] = s; sum += s;
     }
+    if (nres) hk_stat("setfields_mixed", 1);
     int pr = probe(probe_setfields, 0);
     if (pr < 0) { hk_fail("limits-scanattrs-overflow", "VSsetfields/VSfexist with %d field names died", sf_n); remove(sf_path); return; }
     int32 fid = Hopen(sf_path, DFACC_CREATE, 16); Vstart(fid);
@@ -1130,8 +1152,14 @@ static void case_setfields(int k)
     int r = VSsetfields(vs, list);
     int nf = VFnfields(vs);
     printf("T limits setfields %d ", sf_n);
-    for (int i = 0; i < sf_n; i++) printf("%s%d", i ? "," : "", sf_sizes[i]);
+    for (int i = 0; i < sf_n; i++) { if (sf_res[i] >= 0) printf("%s%s", i ? "," : "", RS[sf_res[i]]); else printf("%s%d", i ? "," : "", sf_sizes[i]); }
     printf(" => %s %d\n", r == FAIL ? "fail" : "ok", nf);
+    if (r != FAIL && sum > 65535) {
+        /* the record size does not fit the 16-bit wlist.ivsize: VSwrite would size its transfer buffer from the wrapped value */
+        hk_fail(nres ? "limits-ivsize-wrap:reserved-field" : "limits-ivsize-wrap", "VSsetfields accepted %d fields of %lld bytes in all (%d predefined)", sf_n, sum, nres);
+        VSdetach(vs); Vend(fid); Hclose(fid); free(list); remove(sf_path);
+        return;
+    }
     if (r == FAIL && nf != 0) hk_fail("limits-setfields-partial", "VSsetfields failed (%d names, record %lld bytes) but left %d fields set", sf_n, sum, nf);
     if (r != FAIL) {
         if (nf != sf_n) hk_fail("limits-setfields-count", "VFnfields %d expected %d", nf, sf_n);
@@ -1151,7 +1179,8 @@ static void case_setfields(int k)
     else {
         /* the vdata stays usable: a small field list can still be set and written (only when nothing was half-set) */
         if (nf == 0) {
-            if (VSsetfields(vs, "G0") == FAIL) hk_fail("limits-followup", "VSsetfields(G0) after a refused field list");
+            char one[16]; snprintf(one, sizeof one, "G%d", sf_n - 1);      /* the last entry is always a user-defined field */
+            if (VSsetfields(vs, one) == FAIL) hk_fail("limits-followup", "VSsetfields(%s) after a refused field list", one);
         }
         hk_stat("setfields_refused", 1);
     }
